@@ -5,138 +5,13 @@ From Coq Require Import Ascii String.
 From Coq Require Import List Arith Bool NArith Lia.
 Import ListNotations.
 Require Import Laze.model.Base Laze.model.Path Laze.model.Load Laze.model.Cache.
-Require Import Laze.proofs.BaseFacts Laze.proofs.CacheInstance.
+Require Import Laze.proofs.BaseFacts Laze.proofs.WorkList Laze.proofs.CacheInstance.
 Open Scope list_scope.
 
-Definition step_pending (inc : finc) (start : nat) (ds : list ydoc) (pending : list finc) : list finc :=
-  fold_left (fun p d =>
-     let p1 := fold_left (fun p s => finc_insert (path_join (path_join (parent (fst inc)) s) (S_ "laze.yml"), Some (ld_idx d)) p)
-                         (odflt [] (d_subdirs (ld_doc d))) p in
-     fold_left (fun p s => finc_insert (path_join (parent (fst inc)) s, Some (ld_idx d)) p)
-               (odflt [] (d_includes (ld_doc d))) p1)
-    (map (fun id => {| ld_doc := snd id; ld_file := fst inc; ld_idx := start + fst id; ld_included_by := snd inc |})
-         (combine (seq 0 (length ds)) ds)) pending.
-
-Lemma load_files_S f (t : ytree) (pending : list finc) pos docs :
-  load_files (S f) t pending pos docs =
-  match nth_error pending pos with
-  | None => Ok (docs, pending)
-  | Some inc =>
-      match alookup (fst inc) t with
-      | None => Err e_nofile
-      | Some ds =>
-          load_files f t (step_pending inc (length docs) ds pending) (S pos)
-            (docs ++ map (fun id => {| ld_doc := snd id; ld_file := fst inc; ld_idx := length docs + fst id;
-                                       ld_included_by := snd inc |}) (combine (seq 0 (length ds)) ds))
-      end
-  end.
-Proof. reflexivity. Qed.
-
-(* a property of lists of includes that finc_insert preserves is preserved by a whole step *)
-Lemma step_pending_ind (P : list finc -> Prop) :
-  (forall x l, P l -> P (finc_insert x l)) ->
-  forall inc start ds pending, P pending -> P (step_pending inc start ds pending).
+Lemma flat_map_ext_in' {A B} (f g : A -> list B) l : (forall a, In a l -> f a = g a) -> flat_map f l = flat_map g l.
 Proof.
-  intros HP inc start ds. unfold step_pending. generalize (map (fun id : nat * ydoc =>
-      {| ld_doc := snd id; ld_file := fst inc; ld_idx := start + fst id; ld_included_by := snd inc |})
-      (combine (seq 0 (length ds)) ds)). intros new.
-  induction new as [|d t IH]; intros pending Hp; cbn [fold_left]; [exact Hp|].
-  apply IH.
-  assert (G : forall (g : str -> finc) l p, P p -> P (fold_left (fun p0 s => finc_insert (g s) p0) l p)).
-  { intros g l. induction l as [|s r IHl]; intros p Hp0; cbn [fold_left]; [exact Hp0|]. apply IHl, HP, Hp0. }
-  apply (G (fun s => (path_join (parent (fst inc)) s, Some (ld_idx d)))).
-  apply (G (fun s => (path_join (path_join (parent (fst inc)) s) (S_ "laze.yml"), Some (ld_idx d)))). exact Hp.
-Qed.
-
-Lemma step_pending_ext inc start ds (pending : list finc) : exists ext, step_pending inc start ds pending = pending ++ ext.
-Proof.
-  apply (step_pending_ind (fun l => exists ext, l = pending ++ ext)).
-  - intros x l [e ->]. destruct (finc_insert_ext x (pending ++ e)) as [e2 ->]. exists (e ++ e2). rewrite app_assoc. reflexivity.
-  - exists []. rewrite app_nil_r. reflexivity.
-Qed.
-
-Lemma NoDup_snoc {A} (l : list A) x : NoDup l -> ~ In x l -> NoDup (l ++ [x]).
-Proof.
-  induction l as [|y t IH]; intros ND Hn; cbn; [constructor; [intros []|constructor]|].
-  inversion ND as [|? ? Hy ND']; subst. constructor.
-  - rewrite in_app_iff. intros [H|[H|[]]]; [contradiction|]. apply Hn. left. symmetry. exact H.
-  - apply IH; [exact ND'|]. intros H. apply Hn. right. exact H.
-Qed.
-
-Lemma finc_insert_nodup x (l : list finc) : NoDup (map fst l) -> NoDup (map fst (finc_insert x l)).
-Proof.
-  unfold finc_insert. intros ND. destruct (existsb (finc_eqb x) l) eqn:E; [exact ND|].
-  rewrite map_app. cbn [map]. apply NoDup_snoc; [exact ND|].
-  intros Hin. apply in_map_iff in Hin. destruct Hin as (y & Hy & Hl).
-  assert (existsb (finc_eqb x) l = true); [|congruence].
-  apply existsb_exists. exists y. split; [exact Hl|]. unfold finc_eqb. apply str_eqb_eq. symmetry; exact Hy.
-Qed.
-
-(* ---------- the result extends the work list; the files of the result are distinct ---------- *)
-Lemma load_files_prefix : forall fuel (t : ytree) (pending : list finc) pos docs ds (fs : list finc),
-  load_files fuel t pending pos docs = Ok (ds, fs) -> exists ext, fs = pending ++ ext.
-Proof.
-  induction fuel as [|f IH]; intros t pending pos docs ds fs HL; [discriminate|].
-  rewrite load_files_S in HL. destruct (nth_error pending pos) as [inc|].
-  - destruct (alookup (fst inc) t) as [ds0|]; [|discriminate].
-    apply IH in HL. destruct HL as [e ->]. destruct (step_pending_ext inc (length docs) ds0 pending) as [e2 ->].
-    exists (e2 ++ e). rewrite app_assoc. reflexivity.
-  - injection HL as _ <-. exists []. rewrite app_nil_r. reflexivity.
-Qed.
-
-Lemma load_files_nodup : forall fuel (t : ytree) (pending : list finc) pos docs ds (fs : list finc),
-  NoDup (map fst pending) -> load_files fuel t pending pos docs = Ok (ds, fs) -> NoDup (map fst fs).
-Proof.
-  induction fuel as [|f IH]; intros t pending pos docs ds fs ND HL; [discriminate|].
-  rewrite load_files_S in HL. destruct (nth_error pending pos) as [inc|].
-  - destruct (alookup (fst inc) t) as [ds0|]; [|discriminate].
-    apply IH in HL; [exact HL|]. apply (step_pending_ind (fun l => NoDup (map fst l))); [|exact ND].
-    intros x l. apply finc_insert_nodup.
-  - injection HL as _ <-. exact ND.
-Qed.
-
-(* ---------- agreement on the recorded files is enough ---------- *)
-Lemma load_files_agree : forall fuel (t1 t2 : ytree) (pending : list finc) pos docs ds (fs : list finc),
-  load_files fuel t1 pending pos docs = Ok (ds, fs) ->
-  (forall inc : finc, In inc fs -> alookup (fst inc) t2 = alookup (fst inc) t1) ->
-  load_files fuel t2 pending pos docs = Ok (ds, fs).
-Proof.
-  induction fuel as [|f IH]; intros t1 t2 pending pos docs ds fs HL Hag; [discriminate|].
-  rewrite load_files_S in HL |- *. destruct (nth_error pending pos) as [inc|] eqn:En; [|exact HL].
-  destruct (alookup (fst inc) t1) as [ds0|] eqn:Ea; [|discriminate].
-  assert (Hin : In inc fs).
-  { destruct (load_files_prefix _ _ _ _ _ _ _ HL) as [e ->].
-    destruct (step_pending_ext inc (length docs) ds0 pending) as [e2 ->].
-    rewrite <- app_assoc. apply in_or_app. left. eapply nth_error_In. exact En. }
-  rewrite (Hag inc Hin), Ea. apply (IH t1); assumption.
-Qed.
-
-(* ---------- fuel: one unit per recorded file, plus one ---------- *)
-Lemma load_files_fuel : forall fuel (t : ytree) (pending : list finc) pos docs ds (fs : list finc),
-  load_files fuel t pending pos docs = Ok (ds, fs) ->
-  forall fuel', length fs - pos < fuel' -> load_files fuel' t pending pos docs = Ok (ds, fs).
-Proof.
-  induction fuel as [|f IH]; intros t pending pos docs ds fs HL fuel' Hf; [discriminate|].
-  destruct fuel' as [|f']; [lia|].
-  rewrite load_files_S in HL |- *. destruct (nth_error pending pos) as [inc|] eqn:En; [|exact HL].
-  destruct (alookup (fst inc) t) as [ds0|]; [|discriminate].
-  assert (Hlen : pos < length fs).
-  { destruct (load_files_prefix _ _ _ _ _ _ _ HL) as [e ->].
-    destruct (step_pending_ext inc (length docs) ds0 pending) as [e2 ->].
-    rewrite !app_length. assert (pos < length pending) by (apply nth_error_Some; rewrite En; discriminate). lia. }
-  apply (IH _ _ _ _ _ _ HL). lia.
-Qed.
-
-Lemma alookup_In_keys {V} k (l : list (str * V)) : alookup k l <> None -> In k (akeys l).
-Proof.
-  induction l as [|[k' v] t IH]; cbn; [tauto|].
-  destruct (str_eqb k k') eqn:E; [intros _; left; symmetry; apply str_eqb_eq; exact E|]. intros Hn. right. apply IH, Hn.
-Qed.
-
-Lemma alookup_ytree_of_eq store (t : vtree) f : alookup f (ytree_of store t) = option_map (store f) (alookup f t).
-Proof.
-  unfold ytree_of. induction t as [|[f' v] r IH]; cbn; [reflexivity|].
-  destruct (str_eqb f f') eqn:E; [|exact IH]. apply str_eqb_eq in E. subst f'. reflexivity.
+  induction l as [|a r IH]; intros H; [reflexivity|]. cbn [flat_map].
+  rewrite (H a (or_introl eq_refl)), IH; [reflexivity|]. intros b Hb. apply H. right. exact Hb.
 Qed.
 
 Section Frame.
@@ -149,14 +24,15 @@ Section Frame.
     unfold cload_ts, loaded_files in HL.
     destruct (load (ytree_of store t1) project_file bd) as [b1| | |] eqn:Eload; cbn [rbind] in HL; try discriminate.
     unfold rmap in HL.
-    destruct (load_files _ (ytree_of store t1) [(project_file, None)] 0 []) as [[ds fs]| | |] eqn:ELF; cbn [rbind] in HL; try discriminate.
+    destruct (load_files _ (ytree_of store t1) [(project_file, (None, None))] 0 []) as [[ds fs]| | |] eqn:ELF; cbn [rbind] in HL; try discriminate.
     injection HL as <-.
+    unfold cts_valid in Hv. cbn [fst snd] in Hv. apply andb_prop in Hv. destruct Hv as [Hv Hab].
+    rewrite forallb_forall in Hv, Hab.
     (* the recorded files have the same version, hence the same content, in both trees *)
     assert (Hin1 : forall inc : finc, In inc fs -> alookup (fst inc) (ytree_of store t1) <> None).
     { intros inc Hinc. eapply load_files_in_tree; [|exact ELF|exact Hinc]. intros i inc0 Hi. lia. }
     assert (Hver : forall inc : finc, In inc fs -> alookup (fst inc) t2 = alookup (fst inc) t1 /\ alookup (fst inc) t1 <> None).
     { intros inc Hinc. pose proof (alookup_ytree_of store t1 (fst inc) (Hin1 inc Hinc)) as Hne.
-      unfold cts_valid in Hv. rewrite forallb_forall in Hv.
       specialize (Hv (fst inc, version t1 (fst inc))). cbn [fst snd] in Hv.
       assert (Hm : In (fst inc, version t1 (fst inc)) (map (fun f => (f, version t1 f)) (map fst fs))).
       { apply in_map_iff. exists (fst inc). split; [reflexivity|]. apply in_map. exact Hinc. }
@@ -165,22 +41,34 @@ Section Frame.
       destruct (alookup (fst inc) t2) as [v2|]; [|discriminate]. apply N.eqb_eq in Hv. subst. split; [reflexivity|discriminate]. }
     assert (Hag : forall inc : finc, In inc fs -> alookup (fst inc) (ytree_of store t2) = alookup (fst inc) (ytree_of store t1)).
     { intros inc Hinc. rewrite !alookup_ytree_of_eq. rewrite (proj1 (Hver inc Hinc)). reflexivity. }
-    pose proof (load_files_agree _ _ (ytree_of store t2) _ _ _ _ _ ELF Hag) as ELF2.
-    (* the fuel of the second tree suffices: the recorded files are distinct files of that tree *)
-    assert (Hlen : length fs <= length (ytree_of store t2)).
-    { assert (ND : NoDup (map fst fs)).
-      { eapply load_files_nodup; [|exact ELF]. cbn. constructor; [intros []|constructor]. }
-      assert (Hincl : incl (map fst fs) (akeys (ytree_of store t2))).
-      { intros f Hf. apply in_map_iff in Hf. destruct Hf as (inc & <- & Hinc). apply alookup_In_keys.
-        rewrite (Hag inc Hinc). apply Hin1, Hinc. }
-      pose proof (NoDup_incl_length ND Hincl) as Hl. unfold akeys in Hl. rewrite !map_length in Hl. exact Hl. }
-    assert (ELF3 : load_files (S (S (length (ytree_of store t2) * 8))) (ytree_of store t2) [(project_file, None)] 0 [] = Ok (ds, fs)).
-    { apply (load_files_fuel _ _ _ _ _ _ _ ELF2). lia. }
+    (* the files that were looked for and not found are not there in the second tree either, so
+       every import finds the same lazefile *)
+    assert (Habs : forall g, In g (absent_of (ytree_of store t1) ds) -> file_exists (ytree_of store t2) g = false).
+    { intros g Hg. specialize (Hab g Hg). unfold file_exists. rewrite alookup_ytree_of_eq.
+      destruct (alookup g t2); [discriminate Hab|reflexivity]. }
+    assert (Himp : forall d s, In d ds -> In s (odflt [] (d_imports (ld_doc d))) ->
+                   get_lazefile (ytree_of store t2) s = get_lazefile (ytree_of store t1) s /\
+                   preferred_over (ytree_of store t2) s = preferred_over (ytree_of store t1) s).
+    { intros d s Hd Hs. destruct (load_files_imports _ _ _ _ _ _ _ ELF d Hd) as [[]|Hgood].
+      destruct (Hgood s Hs) as (f & y & Hg & Hy & Hf).
+      destruct (get_lazefile_agree (ytree_of store t1) (ytree_of store t2) s f Hg) as [H1 H2].
+      - unfold file_exists. subst f. rewrite (Hag y Hy).
+        destruct (alookup (fst y) (ytree_of store t1)) eqn:E; [reflexivity|]. exfalso. apply (Hin1 y Hy). exact E.
+      - intros g Hg'. apply Habs. unfold absent_of. apply in_flat_map. exists d. split; [exact Hd|].
+        apply in_flat_map. exists s. split; [exact Hs|exact Hg'].
+      - rewrite H1, Hg. split; [reflexivity|exact H2]. }
+    pose proof (load_files_agree _ _ (ytree_of store t2) _ _ _ _ _ ELF Hag (fun d s Hd Hs => proj1 (Himp d s Hd Hs))) as ELF2.
+    (* the fuel of the second tree suffices *)
+    assert (ELF3 : load_files (load_fuel (ytree_of store t2)) (ytree_of store t2) [(project_file, (None, None))] 0 [] = Ok (ds, fs)).
+    { apply (load_files_fuel _ _ _ _ _ _ _ ELF2). pose proof (load_files_bound _ _ _ _ _ ELF2) as Hb. unfold load_fuel. lia. }
     assert (Eload2 : load (ytree_of store t2) project_file bd = load (ytree_of store t1) project_file bd).
     { unfold load. rewrite ELF3, ELF. reflexivity. }
     split; [|rewrite Eload2; exact Eload].
-    unfold cload_ts, loaded_files. rewrite Eload2, Eload. cbn [rbind]. rewrite ELF3. unfold rmap. cbn [rbind snd].
-    f_equal. apply map_ext_in. intros f Hf. apply in_map_iff in Hf. destruct Hf as (inc & <- & Hinc).
-    unfold version. rewrite (proj1 (Hver inc Hinc)). reflexivity.
+    unfold cload_ts, loaded_files. rewrite Eload2, Eload. cbn [rbind]. rewrite ELF3. unfold rmap. cbn [rbind fst snd].
+    f_equal. f_equal.
+    - apply map_ext_in. intros f Hf. apply in_map_iff in Hf. destruct Hf as (inc & <- & Hinc).
+      unfold version. rewrite (proj1 (Hver inc Hinc)). reflexivity.
+    - unfold absent_of. apply flat_map_ext_in'. intros d Hd. apply flat_map_ext_in'. intros s0 Hs0.
+      apply (proj2 (Himp d s0 Hd Hs0)).
   Qed.
 End Frame.
